@@ -12,6 +12,7 @@ mod iohook;
 mod parse;
 mod profiles;
 mod rec;
+mod sched;
 mod workload;
 
 use std::{
@@ -124,6 +125,7 @@ fn main() {
         "damage-run" => crash::damage_run(&a),
         "fault-run" => fault::fault_run(&a),
         "workload" => workload::workload(&a),
+        "sched-run" => sched::sched_run(&a),
         _ => {
             eprintln!("unknown subcommand");
             2
